@@ -82,12 +82,13 @@ func (ch *chaos) viol(prop, clause, detail string) {
 // ---- C03: at every ack, the follower's durable log equals the leader's up to the acked offset ----
 
 type ackMonitor struct {
-	ch       *chaos
-	mu       sync.Mutex
-	checked  map[int64]int64 // stream id -> highest offset already compared
-	n        atomic.Int64
-	acked    map[string]int64 // "follower@term" -> highest offset acknowledged on a stream of that term since the node's last restart
-	ackedOld map[string]int64 // the same, before the node's last restart
+	ch        *chaos
+	mu        sync.Mutex
+	checked   map[int64]int64 // stream id -> highest offset already compared
+	n         atomic.Int64
+	acked     map[string]int64 // "follower@term" -> highest offset acknowledged on a stream of that term since the node's last restart
+	ackedOld  map[string]int64 // the same, before the node's last restart
+	firstSent map[int64]bool   // streams whose first append has been seen
 }
 
 func (m *ackMonitor) ackedBy(follower string, term int64) (int64, bool) {
@@ -175,6 +176,28 @@ func (m *ackMonitor) OnAckSent(s *rc.ReplStream, offset int64) {
 	if offset <= from && seen {
 		from = offset - 1 // a duplicate ack: re-check just that offset
 	}
+	if !seen {
+		// first ack on this stream: the follower's log must begin where its database ends: at 0, or right after the
+		// offset it answered for the last snapshot it installed (its log is cleared then) — never later (a hole)
+		// (judged only when the last thing that rebuilt the node was a snapshot install: a node that the harness wiped
+		// and re-attached in the same term through the leader's old cursor is outside what the coordinator does)
+		expected := int64(-1)
+		for _, e := range ch.c.Events() {
+			if e.Node != s.Follower {
+				continue
+			}
+			switch e.Kind {
+			case "wipe":
+				expected = -1
+			case "snapshot-ack":
+				expected = e.Offset + 1
+			}
+		}
+		m.n.Add(1)
+		if first := fw.FirstOffset(); expected >= 0 && first > expected {
+			ch.viol("C03", "hole-between-the-follower-database-and-its-log", fmt.Sprintf("%s acknowledges offset %d to %s (term %d); its log begins at offset %d, its database was last rebuilt up to offset %d", s.Follower, offset, s.Leader, s.Term, first, expected-1))
+		}
+	}
 	for o := from + 1; o <= offset; o++ {
 		m.n.Add(1)
 		fe, ferr := readEntry(fw, o)
@@ -219,7 +242,8 @@ func (m *ackMonitor) OnAckSent(s *rc.ReplStream, offset int64) {
 		}
 	}
 }
-func (*ackMonitor) OnAckDelivered(*rc.ReplStream, int64)       {}
+func (*ackMonitor) OnAckDelivered(*rc.ReplStream, int64) {}
+
 func (*ackMonitor) OnAppendSent(*rc.ReplStream, *proto.Append) {}
 
 // ---- operations ----
